@@ -336,7 +336,7 @@ func TestEchHelloCases(t *testing.T) {
 			}
 		case mode == "stretch":
 			// ... and outer hellos of exactly 2^14 bytes and just below ("sizes up to the record limit")
-			variants = []encOpts{{padLen: 13}, {padLen: 1, stretch: 300}, {padLen: 31, stretch: 900}, {padLen: 13, fillTo: 16384}, {padLen: 5, stretch: 300, fillTo: 16381}}
+			variants = []encOpts{{padLen: 13}, {padLen: 1, stretch: 300}, {padLen: 31, stretch: 900}, {padLen: 13, fillTo: 16384}, {padLen: 5, stretch: 300, fillTo: 16381}, {padLen: 13, innerVer: 0x0301}}
 		default:
 			variants = []encOpts{{padLen: 13}}
 		}
